@@ -540,7 +540,7 @@ impl Campaign for C20 {
     fn runs(&self, tier: Tier) -> u64 {
         match tier {
             Tier::Quick => 100_000,
-            Tier::Thorough => 8_000_000,
+            Tier::Thorough => 30_000_000,
         }
     }
 
